@@ -220,23 +220,23 @@ type crashSignal struct {
 
 type PNet struct {
 	*CoreNet
-	o        *Opts
-	recs     map[int]*RecStore
-	bss      map[int]*hg.BadgerStore
-	cur      *CNode
-	writes   map[int]int
-	armNode  int
-	armAt    int
-	armKind  string
-	booting  bool
-	bootW    int
+	o                      *Opts
+	recs                   map[int]*RecStore
+	bss                    map[int]*hg.BadgerStore
+	cur                    *CNode
+	writes                 map[int]int
+	armNode                int
+	armAt                  int
+	armKind                string
+	booting                bool
+	bootW                  int
 	offers, offersAccepted int
-	imageSeq int
-	torn     int // images whose value log ends in a torn record
-	crashes  int
-	restarts int
-	reads    int
-	gen      []int
+	imageSeq               int
+	torn                   int // images whose value log ends in a torn record
+	crashes                int
+	restarts               int
+	reads                  int
+	gen                    []int
 }
 
 func copyDir(src, dst string) error {
@@ -297,6 +297,8 @@ func tearValueLog(dir string, salt int) {
 	f.Write(hdr)
 	f.Write([]byte("evt_torn-record"))
 }
+
+type reopenFailure struct{}
 
 func (pn *PNet) hook(kind string) {
 	if pn.booting {
@@ -593,7 +595,14 @@ func (pn *PNet) restart(n *CNode, dir string, crash *crashSignal, partial []inte
 
 	bs, err := hg.NewBadgerStore(n.cache, dir, false, quietLogger())
 	if err != nil {
-		panic(fmt.Sprintf("persist: cannot reopen %s: %v", dir, err))
+		// the database left by the kill cannot be opened: nothing is re-delivered, nothing
+		// is known, the node never comes back (recorded; the run ends here)
+		msg := err.Error()
+		if len(msg) > 120 {
+			msg = msg[:120]
+		}
+		pn.w.Emit(n.num, "ReopenFailed", map[string]interface{}{"after_kill": crash != nil, "err": msg}, nil)
+		panic(reopenFailure{})
 	}
 	m := &CNode{w: pn.w, num: n.num, part: n.part, kind: "badger", cache: n.cache, dir: dir, genesis: n.genesis,
 		view: map[string]bool{}, undet: map[string]bool{}}
@@ -757,11 +766,28 @@ func (pn *PNet) restart(n *CNode, dir string, crash *crashSignal, partial []inte
 	return m
 }
 
-func runPersist(o *Opts) *Summary {
-	s := &Summary{Mode: "persist", Extra: map[string]interface{}{}}
+func runPersist(o *Opts) (s *Summary) {
+	s = &Summary{Mode: "persist", Extra: map[string]interface{}{}}
 	var w *World
 	totCrash, totRestart, totReads, totWrites := 0, 0, 0, 0
 	totTorn := 0
+	defer func() {
+		// a database that cannot be reopened ends the run: what was recorded so far
+		// (the ReopenFailed line included) is handed to TLC
+		if r := recover(); r != nil {
+			if _, ok := r.(reopenFailure); !ok {
+				panic(r)
+			}
+			hg.VerifDBWriteHook = nil
+			s.Traces = w.traceNo
+			s.Lines = w.lines
+			s.Extra["crash_points"] = totCrash + 3
+			s.Extra["restarts"] = totRestart + 6
+			s.Extra["store_reads_checked"] = totReads
+			s.Extra["reopen_failed"] = 1
+			w.CloseTrace()
+		}
+	}()
 	totOffers := 0
 	kinds := map[string]int{}
 	for t := 0; t < o.Traces; t++ {
